@@ -13,12 +13,22 @@ VARIABLES s
 KeyScn == [kind : {"keys"}, type : Types, enc : Encodings, privfmt : PrivFormats, pubfmt : PubFormats]
 ConvScn == [kind : {"convert"}, type : Types, zx : 0..2, zy : 0..2, cols : {1, 8, 13}, indent : {0, 4}, tab : BOOLEAN,
             nolength : BOOLEAN, noconst : BOOLEAN]
-Init == s \in KeyScn \cup {c \in ConvScn : (c.type \notin Nist => (c.zx = 0 /\ c.zy = 0)) /\ (c.tab => c.indent = 4)
+\* coordinates whose FIRST or LAST byte has a value that byte-oriented (de)serialisation code treats specially: 0x00, the
+\* X9.62 point-format markers 0x02 0x03 0x04 0x06 0x07, DER SEQUENCE 0x30, sign bit 0x80, 0xFF, 0x20 / 0x0A (whitespace)
+EdgeVals == {0, 1, 2, 3, 4, 6, 7, 10, 32, 48, 128, 255}
+EdgeScn == [kind : {"convertedge"}, type : {"secp256r1", "secp384r1"}, pos : {"x0", "y0", "xn", "yn"}, val : EdgeVals]
+Init == s \in EdgeScn \cup KeyScn \cup {c \in ConvScn : (c.type \notin Nist => (c.zx = 0 /\ c.zy = 0)) /\ (c.tab => c.indent = 4)
                                            /\ (c.cols = 13 => ~c.noconst)}
 Next == UNCHANGED s
 Spec == Init /\ [][Next]_s
 
 Coord(w, z) == [i \in 1..(w - z) |-> IF i = 1 THEN 1 ELSE (i * 7) % 256]     \* minimal bytes of a coordinate with z leading zero bytes
+EdgePreserved == s.kind = "convertedge" =>
+   LET w == Width(s.type)
+       c == [i \in 1..w |-> IF (s.pos \in {"x0", "y0"} /\ i = 1) \/ (s.pos \in {"xn", "yn"} /\ i = w) THEN s.val ELSE 9]
+       m == IF c[1] = 0 THEN Tail(c) ELSE c                          \* minimal bytes
+       e == Expected(s.type, m, m, <<>>) IN
+   Len(e) = 2 * w /\ SubSeq(e, 1, w) = c /\ SubSeq(e, w + 1, 2 * w) = c
 FixedWidth == s.kind = "convert" /\ s.type \in Nist =>
    LET w == Width(s.type)
        e == Expected(s.type, Coord(w, s.zx), Coord(w, s.zy), <<>>) IN
